@@ -322,6 +322,13 @@ func (db *TempPool) OperationHashes(
 				ops = nops
 
 				opsindex--
+
+				// NOTE the entries after the removed one were shifted
+				for fk, fi := range facts {
+					if fi > prev {
+						facts[fk] = fi - 1
+					}
+				}
 			}
 
 			ops[opsindex] = [2]util.Hash{meta.Operation(), meta.Fact()}
